@@ -10,6 +10,7 @@ from vlib.props.C12 import a_range
 
 ID = "C15"
 DESIGN_REF = "3/C15"
+ROTATE_TZ = True  # shards run under different local time zones (the property must hold in all of them)
 RULE = (
     "Pairs of distinct naive datetimes (ms resolution, 1900-2200, either order; spans 1 ms .. 250 years, biased to calendar edges), "
     "ranges either order, query instants inside and up to one span outside. Oracle: end points map exactly to the range ends; "
@@ -35,7 +36,8 @@ def case(draw):
     t = draw(st.one_of(st.floats(0, 1), st.floats(-1, 2), st.sampled_from([0.0, 1.0, 0.5])))
     t2 = draw(st.floats(-1, 2))
     dur = draw(st.floats(0, 1))
-    return dict(d0=d0, d1=d1, r=r, t=t, t2=t2, dur=dur)
+    e0, e1, _ = draw(tg.time_domain())
+    return dict(d0=d0, d1=d1, r=r, t=t, t2=t2, dur=dur, e0=e0, e1=e1)
 
 
 def strategy(tier):
@@ -106,4 +108,18 @@ def check(spec, ctx):
             lb = lib_call(s, tg.from_ms(u1 + dur)) - lib_call(s, tg.from_ms(u1))
             if abs(la - lb) > 2 * (tol_at(u0 + dur, la) + tol_at(u1 + dur, lb)):
                 raise Violation("equal-durations-unequal-lengths", "duration %d ms maps to %r at %s and %r at %s" % (dur, la, tg.from_ms(u0), lb, tg.from_ms(u1)))
+    # the same scale object, given a second domain after it has been used: still invertible on the domain it now has
+    if spec.get("e0"):
+        e0, e1 = tg.parse(spec["e0"]), tg.parse(spec["e1"])
+        lib_call(s.domain, [e0, e1])
+        n0, n1 = tg.ms(e0), tg.ms(e1)
+        mx = n0 + int(round((n1 - n0) * min(1.0, max(0.0, spec["t"]))))
+        x = tg.from_ms(mx)
+        y = lib_call(s, x)
+        xi = lib_call(s.invert, y)
+        if abs((xi - x) / tg.MS) > 1:
+            raise Violation("invert-after-domain-change", "scale used with domain [%s, %s], then given [%s, %s]: invert(s(%s)) = %s" % (d0, d1, e0, e1, x, xi))
+        if lib_call(s, e0) != r0 or lib_call(s, e1) != r1:
+            raise Violation("endpoints-after-domain-change", "second domain [%s, %s] does not map to the range ends" % (e0, e1))
+        ctx.event("second-domain-on-used-scale")
     return pts[0][0] not in (m0, m1)
